@@ -271,6 +271,76 @@ def check_digraphs(case):
     return Outcome(nontrivial=True, outcome=f"di{n}", fails=fails, transitions=ncalls)
 
 
+# ------------------------------------------------------------------ rule wrappers (SynRule): equality and hash follow the content
+RULE_PAIRS = {
+    "cbr_heterolysis": "[CH3:1][Br:2]>>[CH3+:1].[Br-:2]",
+    "cbr_homolysis": "[CH3:1][Br:2]>>[CH3:1].[Br:2]",
+    "co_zwitterion": "[CH2:1]=[O:2]>>[CH2+:1][O-:2]",
+    "co_diradical": "[CH2:1]=[O:2]>>[CH2:1][O:2]",
+    "oh_deprotonation": "[CH3:1][O:2][H:3]>>[CH3:1][O-:2].[H+:3]",
+    "oh_homolysis": "[CH3:1][O:2][H:3]>>[CH3:1][O:2].[H:3]",
+    "n_protonation": "[CH3:1][NH2:2].[H+:3]>>[CH3:1][NH2+:2][H:3]",
+    "n_h_atom": "[CH3:1][NH:2].[H:3]>>[CH3:1][NH:2][H:3]",
+}
+
+
+def gen_rules(tier, seed):
+    yield {"what": "rule_wrappers"}
+
+
+def check_rules(case):
+    """every pair of rules from the hand-written reactions (each also renumbered): a renumbered copy is equal and hashes equal
+    (exact back-end); rules whose left or right graphs are not isomorphic are unequal (every back-end tried)"""
+    from synkit.Rule.syn_rule import SynRule
+    from synkit.Graph.Canon.canon_graph import GraphCanonicaliser
+    from synkit.IO.chem_converter import rsmi_to_its
+    from synkit.Graph.ITS.its_decompose import its_decompose
+    from mc import enum_rxn as er
+    from mc.curated import CURATED, minimal_explicit
+
+    rx = {f"cur#{k}": minimal_explicit(v) for k, v in CURATED.items()}
+    rx.update({f"pair#{k}": v for k, v in RULE_PAIRS.items()})
+    items = []
+    for name, s in rx.items():
+        if er.parse(s) is None:
+            continue
+        maps = er.all_maps(s)
+        for tag, t in (("as_written", s), ("reversed_numbering", er.renumber(s, er.reversal_map(maps))), ("shifted_numbering", er.renumber(s, er.shift_map(maps, 1)))):
+            try:
+                its = rsmi_to_its(t, core=True)
+            except Exception:
+                continue
+            if its is None or its.number_of_nodes() == 0:
+                continue
+            l, r = its_decompose(its)
+            items.append((name, tag, its, l, r))
+    fails = []
+    n = 0
+
+    def side_iso(a, b):
+        key = lambda d: (d.get("element"), d.get("charge"), d.get("aromatic"), d.get("hcount"))
+        return rm.isomorphic(a, b, lambda x, y: key(x) == key(y), lambda x, y: x.get("order") == y.get("order"))
+
+    for backend in ("nauty", None):
+        rules = []
+        for name, tag, its, l, r in items:
+            kw = {"canonicaliser": GraphCanonicaliser(backend=backend)} if backend else {}
+            rules.append(SynRule(its, implicit_h=False, **kw))
+        for i in range(len(items)):
+            for j in range(i + 1, len(items)):
+                a, b = items[i], items[j]
+                eq = rules[i] == rules[j]
+                n += 1
+                if a[0] == b[0]:
+                    if backend == "nauty" and not (eq and hash(rules[i]) == hash(rules[j])):
+                        fails.append(Fail("rule_copies_unequal", f"{a[0]}: {a[1]} vs {b[1]}: equal={eq} hashes equal={hash(rules[i]) == hash(rules[j])}", "a renumbered copy of a rule is equal and hashes equal (exact back-end)", key_extra=f"{a[0]}"))
+                elif eq and not (side_iso(a[3], b[3]) and side_iso(a[4], b[4])):
+                    fails.append(Fail("different_rules_equal", f"{a[0]} ({a[1]}) == {b[0]} ({b[1]}) with back-end {backend or 'default'}", "rules whose left or right graphs are not isomorphic are unequal", key_extra=f"{a[0]}~{b[0]},{backend}"))
+        if len(fails) > 20:
+            break
+    return Outcome(nontrivial=True, outcome="rules", fails=fails[:40], transitions=n)
+
+
 TIER_T = ["quick"]
 DI_VATTR = [{"element": "C", "charge": 0, "aromatic": False, "hcount": 0}, {"element": "O", "charge": 0, "aromatic": False, "hcount": 0}]
 FULLFULL = False
@@ -347,6 +417,8 @@ def soundness(tier):
 def subchecks(tier, seed):
     return [
         Sub("presentations", gen, check, key=lambda c: c[0], rule=RULE[tier], setup=None if tier == "quick" else _setup_t),
+        Sub("rule_wrappers", gen_rules, check_rules, key=lambda c: c["what"], rule="all pairs of SynRule objects built from the hand-written reactions and 4 pairs of rules that differ only on the product side (heterolysis / homolysis ...), each under 3 numberings: "
+            "copies equal and hash-equal with the exact back-end, rules with non-isomorphic sides unequal"),
         Sub("digraphs", gen_digraphs, check_digraphs, key=lambda c: f"n{c['n']}:{c['labels']}", setup=None if tier == "quick" else _setup_t,
             rule="every digraph on 2 and 3 nodes over 2 elements (per ordered pair: no arc / order 1 / order 2; quick n=3: no arc / order 1, one member per class) under every node numbering x 4 back-ends: "
             "canonical graph is the input digraph relabelled onto 1..N, signatures of non-isomorphic digraphs differ, the exact back-end gives one result for every numbering"),
